@@ -152,6 +152,7 @@ static ASMJIT_INLINE void CodeHolder_reset_env_and_attached_logger_and_eh(CodeHo
   self->_environment.reset();
   self->_cpu_features.reset();
   self->_base_address = Globals::kNoBaseAddress;
+  self->_init_base_address = Globals::kNoBaseAddress;
   self->_logger = nullptr;
   self->_error_handler = nullptr;
 }
@@ -215,6 +216,7 @@ CodeHolder::CodeHolder(Span<uint8_t> static_arena_memory) noexcept
   : _environment(),
     _cpu_features{},
     _base_address(Globals::kNoBaseAddress),
+    _init_base_address(Globals::kNoBaseAddress),
     _logger(nullptr),
     _error_handler(nullptr),
     _arena(16u * 1024u, static_arena_memory),
@@ -266,6 +268,7 @@ Error CodeHolder::init(const Environment& environment, const CpuFeatures& cpu_fe
   _environment = environment;
   _cpu_features = cpu_features;
   _base_address = base_address;
+  _init_base_address = base_address;
 
   CodeHolder_add_text_section(this);
   return Error::kOk;
@@ -278,6 +281,10 @@ Error CodeHolder::reinit() noexcept {
   }
 
   CodeHolder_reset_sections_and_containers(this, ResetPolicy::kSoft);
+
+  // A base address assigned by `relocate_to_base()` (also through `JitRuntime::add()`) belongs to the code that was just
+  // wiped: the holder is "initialized the same way as before", i.e. with the base address that was passed to `init()`.
+  _base_address = _init_base_address;
 
   // Create a default section and insert it to the `_sections` array.
   Error err = CodeHolder_init_section_storage(this);
